@@ -179,7 +179,13 @@ func runDoIf(c DoIfCase) *vkit.Outcome {
 			o.Class("event-rejected-by-insane-json")
 			return o
 		}
+		before := root.EncodeToString()
 		got[i] = ch.Check(doif.NewEventData(root))
+		if after := root.EncodeToString(); after != before {
+			// a selector only looks at the event
+			o.Failf(P, "doif-check-changed-the-event", "rule %s: the event was %s before Check and is %s after it", c.Rule, before, after)
+			return o
+		}
 		if again := ch.Check(doif.NewEventData(root)); again != got[i] && !approx[i] {
 			o.Failf(P, "doif-decision-not-repeatable", "rule %s event %s: first Check = %v, second Check on the same event = %v", c.Rule, e, got[i], again)
 			return o
